@@ -3,6 +3,7 @@ package main
 import (
 	"fmt"
 	"os"
+	"runtime/pprof"
 	"sort"
 )
 
@@ -10,6 +11,11 @@ func main() {
 	if len(os.Args) < 2 {
 		fmt.Fprintln(os.Stderr, "usage: symgo job <pkgdir> <entry> | check <id> <tier> | selftest")
 		os.Exit(2)
+	}
+	if pf := os.Getenv("SYMGO_PROF"); pf != "" {
+		f, _ := os.Create(pf)
+		pprof.StartCPUProfile(f)
+		defer pprof.StopCPUProfile()
 	}
 	switch os.Args[1] {
 	case "job":
@@ -20,11 +26,35 @@ func main() {
 		}
 		fmt.Printf("loaded in %.1fs\n", ld.LoadSec)
 		j := &Job{ID: os.Args[3], Pkg: os.Args[2], Entry: os.Args[3], Workers: 8, IntMode: os.Getenv("SYMGO_INT") != "", PanicOK: os.Getenv("SYMGO_PANICOK") != ""}
+		j.OneShot = os.Getenv("SYMGO_ONESHOT") != ""
 		if os.Getenv("SYMGO_ALLOC") != "" {
 			j.AllocLimit = 64 << 20
 		}
+		if mp := os.Getenv("SYMGO_MAXPATHS"); mp != "" {
+			fmt.Sscanf(mp, "%d", &j.MaxPaths)
+		}
 		res := Explore(ld.Prog, j)
 		printResult(j.ID, res)
+	case "checkjob":
+		p := registry[os.Args[2]]
+		ld, err := loadRepo(p.PkgDirs)
+		if err != nil {
+			fmt.Fprintln(os.Stderr, "load:", err)
+			os.Exit(2)
+		}
+		tier := "quick"
+		if len(os.Args) > 4 {
+			tier = os.Args[4]
+		}
+		for _, j := range p.Jobs(tier, ld.Prog) {
+			if j.ID == os.Args[3] {
+				if mp := os.Getenv("SYMGO_MAXPATHS"); mp != "" {
+					fmt.Sscanf(mp, "%d", &j.MaxPaths)
+				}
+				res := Explore(ld.Prog, j)
+				printResult(j.ID, res)
+			}
+		}
 	default:
 		os.Exit(mainCheck(os.Args[1:]))
 	}
